@@ -317,7 +317,9 @@ def check_routes(case, work):
             buf = io.BytesIO()
             qr.save(buf, kind='svg', **dict({'xmldecl': False, 'nl': False}, **kw))
             return apostrophes(buf.getvalue())
-        if enc.lower() in ('utf-8', 'ascii'):
+        # every ASCII-compatible single-byte / UTF-8 document encoding: the percent-decoded payload has to be the saved
+        # document byte for byte (round 8: the payload re-encoded as UTF-8 under a latin-1 charset label)
+        if enc.lower() in ('utf-8', 'ascii', 'iso-8859-1', 'iso-8859-15', 'cp1252'):
             attempt('svg_data_uri', data_uri())
             attempt('svg_data_uri_minimal', data_uri(encode_minimal=True, omit_charset=True))
             attempt('svg_data_uri_ref', uri_ref)
@@ -557,7 +559,7 @@ def route_cases(draw):
         for name, strat, p in (('xmldecl', st.just(False), 3), ('svgns', st.just(False), 3), ('nl', st.just(False), 3),
                                ('title', st.sampled_from(['T <&> "q"', 'Title', "it's", 'K\u00e4se', 'Price: 5 \u20ac', '\u70b9']), 3), ('desc', st.sampled_from(['D & d', 'desc', 'Gr\u00fc\u00dfe']), 3),
                                ('svgid', st.just('myid'), 3), ('draw_transparent', st.just(True), 2),
-                               ('svgversion', st.sampled_from([1.0, 1.1, 1.2, 2.0]), 3), ('encoding', st.sampled_from(['iso-8859-1', 'utf-8', 'iso-8859-1', 'ascii']), 3)):
+                               ('svgversion', st.sampled_from([1.0, 1.1, 1.2, 2.0]), 3), ('encoding', st.sampled_from(['iso-8859-1', 'utf-8', 'iso-8859-1', 'ascii', 'ISO-8859-15', 'cp1252']), 3)):
             if draw(st.integers(0, 9)) < p:
                 opts[name] = draw(strat)
         r = draw(st.integers(0, 9))
